@@ -5,6 +5,13 @@ Import ListNotations.
 From Flocq Require Import IEEE754.BinarySingleNaN.
 Require Import FV.Base.Util FV.Base.F64 FV.Base.PyVal FV.C01.Model FV.C01.Lemmas FV.Gen.C03 FV.C03.Model.
 
+(* float constants must never be normalised (the boundedness proof inside a finite float is huge) *)
+Arguments fmaxval : simpl never.
+Arguments rel0 : simpl never.
+Arguments dblmin : simpl never.
+Arguments fopp : simpl never.
+Arguments fmt0 : simpl never.
+
 (* ------------------------------------------------------------------ induction over described types *)
 Lemma xt_ind2 (P : xt -> Prop)
   (HF : forall mn mx a r u f, P (XFloat mn mx a r u f))
@@ -166,6 +173,13 @@ Proof.
        vm_compute in E; discriminate E.
 Qed.
 
+Definition is_fin (b : f64) : Prop := match b with B754_finite _ _ _ _ => True | _ => False end.
+Lemma fin_fmax : is_fin fmaxval. Proof. exact I. Qed.
+Lemma fin_nfmax : is_fin (fopp fmaxval). Proof. exact I. Qed.
+Lemma fin_rel0 : is_fin rel0. Proof. exact I. Qed.
+Lemma fin_dblmin : is_fin dblmin. Proof. exact I. Qed.
+#[global] Opaque pv_float pv_float0 pv_scale pv_unit pv_fmt pv_intU pv_int0 pv_int0U fmaxval rel0 dblmin fopp fmt0.
+
 (* evaluation of the table lookups on a concrete description (values stay symbolic) *)
 Ltac ev_lookup :=
   repeat match goal with
@@ -249,11 +263,104 @@ Proof.
   intros (Hmn & Hmx & Ha & Hr & Hu & Hf & Hp & Hle) E. cbn [xt_export] in E. injection E as <-.
   destruct (fne a fzero) eqn:Ca; [|apply negb_false_iff in Ca; pose proof (feq_zero_fix a Ca Ha); subst a];
   (destruct (negb (str_eqb f fmt0)) eqn:Cf; [|apply negb_false_iff, str_eqb_eq in Cf; subst f]);
-  (destruct (fne mx fmaxval) eqn:Cmx; [|apply negb_false_iff in Cmx; apply feq_eq in Cmx; [subst mx|exact I]]);
-  (destruct (fne mn (fopp fmaxval)) eqn:Cmn; [|apply negb_false_iff in Cmn; apply feq_eq in Cmn; [subst mn|exact I]]);
-  (destruct (fne r rel0) eqn:Cr; [|apply negb_false_iff in Cr; apply feq_eq in Cr; [subst r|exact I]]);
+  (destruct (fne mx fmaxval) eqn:Cmx; [|apply negb_false_iff in Cmx; apply feq_eq in Cmx; [subst mx|exact fin_fmax]]);
+  (destruct (fne mn (fopp fmaxval)) eqn:Cmn; [|apply negb_false_iff in Cmn; apply feq_eq in Cmn; [subst mn|exact fin_nfmax]]);
+  (destruct (fne r rel0) eqn:Cr; [|apply negb_false_iff in Cr; apply feq_eq in Cr; [subst r|exact fin_rel0]]);
   (destruct (negb (str_eqb u [])) eqn:Cu; [|apply negb_false_iff, str_eqb_eq in Cu; subst u]);
   cbn [ent app]; start_get leaf_double; unfold mk_float, float_props; cbv beta iota;
+  remember (fopp fmaxval) as NFM in *; remember fmaxval as FM in *; remember rel0 as R0 in *; remember fmt0 as F0 in *;
+  remember fzero as Z0 in *;
   rewrite ?Hmn, ?Hmx, ?Ha, ?Hr, ?Hu, ?Hf; cbn [as_f as_s bind]; rewrite ?Hmn, ?Hmx, ?Ha, ?Hr, ?Hu, ?Hf; cbn [as_f as_s bind];
   rewrite Hp; cbv beta iota; rewrite Hle; reflexivity.
+Qed.
+
+(* ------------------------------------------------------------------ rebuild of whole trees *)
+Fixpoint scaled_free (x : xt) : Prop :=
+  match x with
+  | XScaled _ _ _ _ _ _ _ => False
+  | XArray e _ _ => scaled_free e
+  | XTuple es => (fix all (l : list xt) : Prop := match l with [] => True | e :: r => scaled_free e /\ all r end) es
+  | XStruct ms _ _ =>
+      (fix all (l : list (str * xt)) : Prop := match l with [] => True | q :: r => scaled_free (snd q) /\ all r end) ms
+  | _ => True
+  end.
+
+Definition export_list : list xt -> res (list pyval) :=
+  fix go (l : list xt) : res (list pyval) :=
+    match l with [] => Ok [] | e :: r => xt_export e >>= fun j => go r >>= fun js => Ok (j :: js) end.
+Definition export_members : list (str * xt) -> res (list (str * pyval)) :=
+  fix go (l : list (str * xt)) : res (list (str * pyval)) :=
+    match l with [] => Ok [] | (n, e) :: r => xt_export e >>= fun j => go r >>= fun js => Ok ((n, j) :: js) end.
+Definition get_list (fuel : nat) (p : str) : list pyval -> res (list xt) :=
+  fix go (l : list pyval) : res (list xt) :=
+    match l with
+    | [] => Ok []
+    | t :: r => get_dt fuel p t >>= need_xt >>= fun e => go r >>= fun es => Ok (e :: es)
+    end.
+Definition get_members (fuel : nat) (p : str) : list (str * pyval) -> res (list (str * xt)) :=
+  fix go (l : list (str * pyval)) : res (list (str * xt)) :=
+    match l with
+    | [] => Ok []
+    | (n, t) :: r => get_dt fuel p t >>= need_xt >>= fun e => go r >>= fun es => Ok ((n, e) :: es)
+    end.
+
+Definition rebuilds (p : str) (x : xt) : Prop :=
+  wfx x -> lossless x -> scaled_free x -> forall j, xt_export x = Ok j ->
+  forall fuel, depth x <= fuel -> get_dt fuel p j = Ok (Some (norm p x)).
+
+Ltac ev_lookup2 :=
+  repeat match goal with
+  | |- context [split_json ?j] => let t := eval vm_compute in (split_json j) in change (split_json j) with t
+  | |- context [binds_ok ?a ?b] => let t := eval vm_compute in (binds_ok a b) in change (binds_ok a b) with t
+  | |- context [arg ?a ?b ?c] => let t := eval vm_compute in (arg a b c) in change (arg a b c) with t
+  | |- context [arg_pos ?a ?b ?c] => let t := eval vm_compute in (arg_pos a b c) in change (arg_pos a b c) with t
+  | |- context [str_eqb ?a ?b] => let t := eval vm_compute in (str_eqb a b) in change (str_eqb a b) with t
+  end.
+Ltac start_get2 L := cbn [get_dt]; ev_lookup2; cbn [bind negb]; rewrite L; ev_lookup2; cbv beta iota; unfold some_xt.
+
+Lemma get_list_ok p f : forall es js,
+  Forall (rebuilds p) es -> Forall wfx es -> Forall lossless es -> Forall scaled_free es ->
+  Forall (fun e => depth e <= f) es -> export_list es = Ok js -> get_list f p js = Ok (map (norm p) es).
+Proof.
+  induction es as [|e es IH]; intros js HR HW HL HS HD E.
+  - cbn in E. injection E as <-. reflexivity.
+  - inversion HR; inversion HW; inversion HL; inversion HS; inversion HD; subst.
+    cbn [export_list] in E. apply bind_ok in E as (j & Ej & E). apply bind_ok in E as (js' & Ejs & E). injection E as <-.
+    cbn [get_list]. rewrite (H1 H5 H9 H13 j Ej f H17). cbn [bind need_xt].
+    fold (get_list f p). rewrite (IH js' H2 H6 H10 H14 H18 Ejs). reflexivity.
+Qed.
+
+Lemma get_members_ok p f : forall ms js,
+  Forall (fun q => rebuilds p (snd q)) ms -> Forall (fun q => wfx (snd q)) ms -> Forall (fun q => lossless (snd q)) ms ->
+  Forall (fun q => scaled_free (snd q)) ms -> Forall (fun q => depth (snd q) <= f) ms ->
+  export_members ms = Ok js -> get_members f p js = Ok (map (fun q => (fst q, norm p (snd q))) ms).
+Proof.
+  induction ms as [|[n e] ms IH]; intros js HR HW HL HS HD E.
+  - cbn in E. injection E as <-. reflexivity.
+  - inversion HR; inversion HW; inversion HL; inversion HS; inversion HD; subst. cbn [snd fst] in *.
+    cbn [export_members] in E. apply bind_ok in E as (j & Ej & E). apply bind_ok in E as (js' & Ejs & E). injection E as <-.
+    cbn [get_members]. rewrite (H1 H5 H9 H13 j Ej f H17). cbn [bind need_xt].
+    fold (get_members f p). rewrite (IH js' H2 H6 H10 H14 H18 Ejs). reflexivity.
+Qed.
+
+Lemma all_Forall {A} (P : A -> Prop) (l : list A) :
+  (fix all (l : list A) : Prop := match l with [] => True | e :: r => P e /\ all r end) l -> Forall P l.
+Proof. induction l as [|e l IH]; intros H; constructor; [apply H|apply IH, H]. Qed.
+
+Lemma depth_list_le f es : fold_right (fun e n => Nat.max (depth e) n) 0 es <= f -> Forall (fun e => depth e <= f) es.
+Proof. induction es as [|e es IH]; cbn; intros H; constructor; [lia|apply IH; lia]. Qed.
+Lemma depth_members_le f (ms : list (str * xt)) :
+  fold_right (fun q n => Nat.max (depth (snd q)) n) 0 ms <= f -> Forall (fun q => depth (snd q) <= f) ms.
+Proof. induction ms as [|e ms IH]; cbn; intros H; constructor; [lia|apply IH; lia]. Qed.
+
+Lemma optional_go (names : list str) : forall opt, forallb (fun n => mem_str n names) opt = true ->
+  (fix go (l : list pyval) : res (list str) :=
+     match l with
+     | [] => Ok []
+     | PStr s :: r => if mem_str s names then go r >>= fun ss => Ok (s :: ss) else W
+     | _ :: _ => W
+     end) (map PStr opt) = Ok opt.
+Proof.
+  induction opt as [|s opt IH]; intros H; [reflexivity|]. cbn in H. apply andb_true_iff in H as [H1 H2].
+  cbn [map]. rewrite H1, (IH H2). reflexivity.
 Qed.
